@@ -17,7 +17,7 @@ pub fn meta() -> PropertyMeta {
     PropertyMeta {
         id: "C14",
         level: "exploration",
-        rule: "all 65536 i16 error numbers through Error::custom(..).esr_mask(), ErrorCode::Custom(..).esr_mask() and ErrorCode::get_error (exhaustive); plus a labelled stream of errors produced by lexing, dispatch and conversion of generated faulty messages whose class is known by construction. Non-trivial: a code within 1 of a century boundary, positive, or below -899; or a generated fault whose error was produced by the library.",
+        rule: "all 65536 i16 error numbers through Error::custom(..).esr_mask(), ErrorCode::Custom(..).esr_mask() and ErrorCode::get_error (exhaustive); plus a labelled stream of errors produced by lexing, dispatch and conversion of generated faulty messages whose class is known by construction; malformed channel lists (EVERY string of up to 9 (11) characters over 1 2 ! : , and up to 10 (13) over 1 ! : , after the '@'; grammar-generated lists after 1..2 single-character mutations) iterated and converted to the tuple type of each spec's own dimension count: every error raised is a command error. Non-trivial: a code within 1 of a century boundary, positive, or below -899; or a generated fault whose error was produced by the library.",
         assumptions: &[
             "class table is transcribed from the property statement (IEEE 488.2 11.5.1.1, SCPI-99 21.8)",
             "no independent list of all standard error numbers is asserted; only get_error(c)=Some(e) => e.get_code()==c and presence of the class representatives",
@@ -179,6 +179,112 @@ fn fault_strategy() -> impl Strategy<Value = Fault> {
     ]
 }
 
+/// A channel list text (with its leading '@') that is NOT well formed: whatever error the
+/// library raises while the list is iterated and its specs are converted is the report of
+/// a syntax fault, hence a command error.
+#[derive(Clone, Debug, Serialize, Deserialize, Hash)]
+pub struct ListFault {
+    pub text: crate::bytes::B,
+}
+
+fn check_list_fault(c: &ListFault, obs: &Obs) -> CheckResult {
+    use scpi::parser::expression::channel_list::{ChannelList, ChannelSpec, Token as Ct};
+    let text = &c.text[..];
+    // numbers stay far below every integer bound, so no error can be a value fault
+    let longest_run = text.split(|b| !b.is_ascii_digit()).map(|r| r.len()).max().unwrap_or(0);
+    if longest_run > 9 {
+        obs.label("list: out of scope (long number)");
+        return Ok(());
+    }
+    if matches!(crate::model::list::channel_list(text), crate::model::list::Verdict::WellFormed(_)) {
+        obs.label("list: well formed");
+        return Ok(());
+    }
+    let Some(it) = ChannelList::new(text) else {
+        obs.label("list: not a channel list");
+        return Ok(());
+    };
+    let mut errors: Vec<(&'static str, Error)> = Vec::new();
+    // a spec is converted to the tuple type of its own dimension count (what a mismatch of the
+    // count is reported as is not part of the claim)
+    fn convert(s: ChannelSpec, errors: &mut Vec<(&'static str, Error)>) {
+        match s.dimension() {
+            1 => {
+                if let Err(e) = isize::try_from(s) {
+                    errors.push(("conversion to isize", e));
+                }
+                if let Err(e) = usize::try_from(s) {
+                    // (a negative value is a value fault; the dimension iterator is read up to its first error only)
+                    if !s.into_iter().map_while(|d| d.ok()).any(|v| v < 0) {
+                        errors.push(("conversion to usize", e));
+                    }
+                }
+            }
+            2 => {
+                if let Err(e) = <(isize, isize)>::try_from(s) {
+                    errors.push(("conversion to (isize, isize)", e));
+                }
+            }
+            3 => {
+                if let Err(e) = <(isize, isize, isize)>::try_from(s) {
+                    errors.push(("conversion to (isize, isize, isize)", e));
+                }
+            }
+            _ => {}
+        }
+    }
+    for (k, item) in it.enumerate() {
+        if k > text.len() + 2 {
+            break;
+        }
+        match item {
+            Ok(Ct::ChannelSpec(s)) => convert(s, &mut errors),
+            Ok(Ct::ChannelRange(a, b)) => {
+                convert(a, &mut errors);
+                convert(b, &mut errors);
+            }
+            Ok(_) => {}
+            Err(e) => {
+                errors.push(("iteration", e.into()));
+                break;
+            }
+        }
+    }
+    obs.label(if errors.is_empty() { "list: malformed, no error raised on this path" } else { "fault: list syntax" });
+    obs.nontrivial_if(!errors.is_empty(), c);
+    for (what, e) in &errors {
+        ensure!(is_command_error(e.get_code()) && e.esr_mask() == 0x20, "list-syntax-class", "channel list ({}): {what} fails with {} (ESR mask {:#04x}); a malformed list is a syntax fault, a command error", escape(text), e.get_code(), e.esr_mask());
+    }
+    Ok(())
+}
+
+fn list_fault_strategy() -> impl Strategy<Value = ListFault> {
+    let list_byte = || prop::sample::select(b"!:,@-+'0123456789 ".to_vec());
+    let m = prop_oneof![
+        3 => (any::<u32>(), list_byte()).prop_map(|(p, v)| (0u8, p, v)),
+        3 => (any::<u32>(), list_byte()).prop_map(|(p, v)| (1u8, p, v)),
+        4 => any::<u32>().prop_map(|p| (2u8, p, 0u8)),
+    ];
+    (crate::props::c19::case_strategy().prop_filter("channel list", |c| c.channel), proptest::collection::vec(m, 1..3)).prop_map(|(c, muts)| {
+        let mut b = c.text.0.clone();
+        for (kind, p, v) in muts {
+            if b.len() <= 1 {
+                break;
+            }
+            // never touch the leading '@'
+            let i = 1 + ((p as u64 * (b.len() as u64 - 1)) >> 32) as usize;
+            match kind {
+                0 => b.insert(i, v),
+                1 => b[i] = v,
+                _ => {
+                    b.remove(i);
+                }
+            }
+        }
+        ListFault { text: crate::bytes::B(b) }
+    })
+}
+
 fn run(e: &Engine) {
     e.enumerate::<i32, _, _>(
         "codes",
@@ -195,6 +301,15 @@ fn run(e: &Engine) {
     );
     // errors the library itself raises for faults of known kind
     e.proptest("labelled-error-stream", e.tier.pick(120_000, 5_000_000), fault_strategy, check_fault);
+    // malformed channel lists: every string over list punctuation and two digits (up to 9 / 11 characters after
+    // the '@'), and grammar-generated lists after one or two single-character mutations
+    let alpha5 = crate::gen::enumstr::Partitioned { alpha: b"1!:,2", max_len: e.tier.pick(9, 11), prefix_len: 3 };
+    let a5 = &alpha5;
+    e.enumerate::<ListFault, _, _>("every-short-channel-list", alpha5.parts(), move |part, f| a5.run(part, &mut |s| f(ListFault { text: crate::bytes::B([b"@", s].concat()) })), check_list_fault);
+    let alpha4 = crate::gen::enumstr::Partitioned { alpha: b"1!:,", max_len: e.tier.pick(10, 13), prefix_len: 3 };
+    let a4 = &alpha4;
+    e.enumerate::<ListFault, _, _>("every-short-channel-list-one-digit", alpha4.parts(), move |part, f| a4.run(part, &mut |s| f(ListFault { text: crate::bytes::B([b"@", s].concat()) })), check_list_fault);
+    e.proptest("mutated-channel-lists", e.tier.pick(200_000, 5_000_000), list_fault_strategy, check_list_fault);
     for l in ["fault: lexical", "fault: element type", "fault: value (range / not in set)", "fault: header / arity", "fault: response buffer exhausted"] {
         if !e.replay_only && !e.failed() && e.label_count(l) < 1000 {
             e.harness_error(format!("generator unhealthy: only {} labelled {l:?}", e.label_count(l)));
